@@ -536,6 +536,15 @@ Definition entry_refines_excl_stmt : Prop :=
                 match m with KAll | KOf _ => False | _ => True end /\
                 forall d : doc, solve_body o e (pure_doc d) = Ok (sem_entry_scalar o ic m f v d).
 
+(* D32: all(k) over a list that holds null AND string members: the loader evaluates the string
+   members first, so a false `== null` written before a missing string predicate gives missing,
+   not false (first non-true in WRITTEN order) *)
+Definition d32_entry (o : oracles) (k v : yaml) : bool :=
+  match key_mod o k, v with
+  | Some KAll, YSeq l => existsb is_ynull l && existsb is_ystr l
+  | _, _ => false
+  end.
+
 Definition spec_known_all (o : oracles) (y : yaml) : list N :=
   let ids := match untag y with
              | YMap kv => match option_map untag (ylookup key_detection kv) with
@@ -545,4 +554,5 @@ Definition spec_known_all (o : oracles) (y : yaml) : list N :=
              | _ => []
              end in
   spec_known o y ++
-  (if existsb (fun v => entry_exists (S (yaml_depth v)) (bigint_str_entry o) v) ids then [30%N] else []).
+  (if existsb (fun v => entry_exists (S (yaml_depth v)) (bigint_str_entry o) v) ids then [30%N] else []) ++
+  (if existsb (fun v => entry_exists (S (yaml_depth v)) (d32_entry o) v) ids then [32%N] else []).
